@@ -62,8 +62,11 @@ pub struct Trace {
 
 pub const SPIN_LIMIT: usize = 8_000_000;
 
-#[derive(Debug)]
+/// produces the read script from the bytes the client has written when it first reads
+pub type Responder = Box<dyn FnOnce(&[u8]) -> Vec<Step> + Send>;
+
 pub struct Scripted {
+    responder: Option<Responder>,
     steps: VecDeque<Step>,
     cur: Vec<u8>,
     cur_pos: usize,
@@ -78,6 +81,7 @@ pub struct Scripted {
 impl Scripted {
     pub fn new(steps: Vec<Step>, faults: WriteFaults, trace: Arc<Mutex<Trace>>) -> Scripted {
         Scripted {
+            responder: None,
             steps: steps.into(),
             cur: Vec::new(),
             cur_pos: 0,
@@ -88,6 +92,20 @@ impl Scripted {
             log_reads: false,
             trace,
         }
+    }
+}
+
+impl Scripted {
+    pub fn reactive(responder: Responder, faults: WriteFaults, trace: Arc<Mutex<Trace>>) -> Scripted {
+        let mut s = Scripted::new(vec![], faults, trace);
+        s.responder = Some(responder);
+        s
+    }
+}
+
+impl std::fmt::Debug for Scripted {
+    fn fmt(&self, f: &mut std::fmt::Formatter<'_>) -> std::fmt::Result {
+        f.debug_struct("Scripted").field("steps_left", &self.steps.len()).finish()
     }
 }
 
@@ -113,6 +131,9 @@ impl Read for Scripted {
         if let Some(kind) = self.sticky {
             t.err_reads += 1;
             return Err(kind.into());
+        }
+        if let Some(r) = self.responder.take() {
+            self.steps = r(&t.written).into();
         }
         loop {
             if self.cur_pos < self.cur.len() {
@@ -239,6 +260,8 @@ pub enum Answer {
     Fail(io::ErrorKind),
     /// hand the client an arbitrary transport (bridge mode)
     Custom(Box<dyn Transport>),
+    /// the read script is computed from the request bytes when the client first reads
+    Reactive(Responder, WriteFaults),
 }
 
 /// Per-case world: installs a thread-local dial factory; every dial is answered by `handler`
@@ -265,6 +288,7 @@ impl World {
                 Answer::Script(steps, faults) => Ok(Box::new(Scripted::new(steps, faults, trace)) as Box<dyn Transport>),
                 Answer::Fail(kind) => Err(kind.into()),
                 Answer::Custom(t) => Ok(t),
+                Answer::Reactive(r, faults) => Ok(Box::new(Scripted::reactive(r, faults, trace)) as Box<dyn Transport>),
             })
         })));
         World { dials }
